@@ -21,6 +21,9 @@ def bin_case(rng):
     cfg = treegen.Cfg(n_min=2, n_max=12, max_arity=6, p_unary=0.1, p_punct=0.05,
                       labels=treegen.LABELS if rng.random() < 0.4 else treegen.PLAIN_LABELS)
     t = treegen.gen_tree(rng, cfg)
+    if rng.random() < 0.15:
+        import history
+        t, _ = history.pretransformed(rng, t, allowed=["add_topnode", "punctuation_root", "root_attach", "punctuation_verylow"])      # none of them marks heads
     tag_uids(t)
     mode = rng.random()
     if mode < 0.8:
@@ -78,6 +81,9 @@ def chain_case(rng):
         w = mk_node("S", k, edge="--", lemma="--", morph="--")
         t.children = [w]
         w.parent = t
+    if rng.random() < 0.15:
+        import history
+        t, _ = history.pretransformed(rng, t, allowed=["add_topnode", "punctuation_root", "root_attach", "binarize", "punctuation_verylow"], p_reader=0.0)
     tag_uids(t)
     base = tx.fresh(t, 1)
     a = proto.enc_tree(base)
